@@ -26,14 +26,17 @@
    to be coherent) and F11 (an explicit SetWithExpire with expiry <= 0 may create a
    persistent key); [prop_ok] has both off. *)
 From Coq Require Import List ZArith Bool NArith.
-From GZ Require Export Lib.CheckLib C06.Model.
+From GZ Require Export Lib.CheckLib C06.Model C06.Codec.
 Import ListNotations.
 Open Scope Z_scope.
 
-Record opobs := mkOO { o_ret : ret; o_qi : Z; o_qp : Z; o_dump : list dump_entry }.
+(* [o_seen]: every primary key the application's callbacks (keyer, primaryQuery) were handed
+   during the operation, in order, as the Go value they received *)
+Record opobs := mkOO { o_ret : ret; o_qi : Z; o_qp : Z; o_seen : list goval; o_dump : list dump_entry }.
 
+(* [c_str]: the table's primary key is a string (identified with [scode] of its bytes) *)
 Record case := mkCase
-  { c_cfg : config; c_rows : table; c_ops : list op; c_obs : list opobs }.
+  { c_cfg : config; c_str : bool; c_rows : table; c_ops : list op; c_obs : list opobs }.
 
 (* ------------------------------------------------------------------ canonical forms *)
 Definition key_leb (a b : key) : bool :=
@@ -73,17 +76,45 @@ Definition ret_eqb (a b : ret) : bool :=
   end.
 
 (* ------------------------------------------------------------------ agrees *)
-Fixpoint agrees_from (c : config) (s : state) (ops : list op) (obs : list opobs) : bool :=
+(* the primary keys keyer / primaryQuery are handed by QueryRowIndexCtx, in order: on an index
+   miss the native key of the row found (keyer, for the primary's SetWithExpire); on an index
+   hit the key decoded from the entry (keyer, then primaryQuery if the primary entry is
+   missing).  The model identifies them (Codec.through_cache, CodecProofs.primary_key_roundtrip):
+   the value handed over must DENOTE the key the entry was written for. *)
+Definition seen (c : config) (s : state) (o : op) (m : obs) : list Z :=
+  match o with
+  | OQri u _ | OQriMid u _ _ =>
+    if key_down c s (KU u) then [] else
+    match lookup (clock s) (cache s) (KU u) with
+    | Some (mkEntry (CPk p) _) => p :: (if 0 <? oqp m then [p] else [])
+    | Some _ => []
+    | None => if dbFault s then [] else
+              match db_by_u u (db s) with Some (p, _) => [p] | None => [] end
+    end
+  | _ => []
+  end.
+
+Fixpoint seen_eqb (str : bool) (l : list Z) (gs : list goval) : bool :=
+  match l, gs with
+  | [], [] => true
+  | p :: l', g :: gs' =>
+    match gcode str g with Some q => (p =? q) && seen_eqb str l' gs' | None => false end
+  | _, _ => false
+  end.
+
+Fixpoint agrees_from (str : bool) (c : config) (s : state) (ops : list op) (obs : list opobs) : bool :=
   match ops, obs with
   | [], [] => true
   | o :: ops', ob :: obs' =>
     let '(s', m) := step c s o in
     ret_eqb (oret m) (o_ret ob) && (oqi m =? o_qi ob) && (oqp m =? o_qp ob)
-    && dump_eqb (dump s') (o_dump ob) && agrees_from c s' ops' obs'
+    && seen_eqb str (seen c s o m) (o_seen ob)
+    && dump_eqb (dump s') (o_dump ob) && agrees_from str c s' ops' obs'
   | _, _ => false
   end.
 
-Definition agrees (c : case) : bool := agrees_from (c_cfg c) (init (c_rows c)) (c_ops c) (c_obs c).
+Definition agrees (c : case) : bool :=
+  agrees_from (c_str c) (c_cfg c) (init (c_rows c)) (c_ops c) (c_obs c).
 
 Fixpoint model_trace (c : config) (s : state) (ops : list op) : list (obs * list dump_entry) :=
   match ops with
@@ -98,6 +129,9 @@ Record rstate := mkR
     r_dbf : bool; r_cf : list Z;   (* injected outages *)
     r_prev : list dump_entry;      (* store contents before the operation *)
     r_disc : bool;                 (* history disciplined so far *)
+    r_owed : list (key * Z);       (* keys named by an Exec / Del while their node was down (the
+                                      invalidation is owed by the cleaner), with the number of
+                                      cleaner ticks until the first retry; 0 = that retry is past *)
     r_ms : state }.                (* model state, used ONLY for the F7 exemption (dirty keys) *)
 
 Fixpoint dget (d : list dump_entry) (k : key) : option (cval * Z) :=
@@ -283,6 +317,44 @@ Definition invalidated (r : rstate) (o : op) (ob : opobs) : bool :=
   | _, _ => true
   end.
 
+(* (G) containment of deletions: the store's time only moves with OAdv, so outside OAdv an
+   entry disappears only because this very Exec / Del names it, or - during cleaner ticks -
+   because its invalidation is owed.  Nothing else (no key of another node, no key that was
+   never named) may be deleted. *)
+Definition owed (r : rstate) (k : key) : bool := existsb (fun kz => key_eqb k (fst kz)) (r_owed r).
+
+Definition kept (r : rstate) (o : op) (ob : opobs) : bool :=
+  match o with
+  | OAdv _ => true
+  | _ =>
+    forallb (fun e : dump_entry =>
+               let '(k, _, _) := e in
+               match dget (o_dump ob) k with
+               | Some _ => true
+               | None =>
+                 match o with
+                 | OExec _ _ keys | ODel keys => mem_key k keys
+                 | OClean _ => owed r k
+                 | _ => false
+                 end
+               end)
+            (r_prev r)
+  end.
+
+(* (H) the retry: an owed key whose first retry falls into these ticks, with its node up, is
+   gone afterwards ("failed deletes are retried by the cleaner") *)
+Definition retried (r : rstate) (o : op) (ob : opobs) : bool :=
+  match o with
+  | OClean n =>
+    forallb (fun kz : key * Z =>
+               let (k, z) := kz in
+               if (0 <? z) && (z <=? Z.of_N n) && negb (down r k)
+               then match dget (o_dump ob) k with None => true | Some _ => false end
+               else true)
+            (r_owed r)
+  | _ => true
+  end.
+
 (* with an outage injected during the index query, the primary's SET may fail: reported *)
 Definition fail_fast_mid (r : rstate) (o : op) (ob : opobs) : bool :=
   match o with
@@ -297,22 +369,35 @@ Definition fail_fast_mid (r : rstate) (o : op) (ob : opobs) : bool :=
 
 Definition check_op (r : rstate) (o : op) (ob : opobs) : bool :=
   coherent r (norm o) ob && served r (norm o) ob && db_errors r (norm o) ob && fail_fast_mid r o ob
-  && ttls r o ob && invalidated r o ob.
+  && ttls r o ob && invalidated r o ob && kept r o ob && retried r o ob.
+
+(* the keys of this Exec / Del whose node is down: their invalidation is now owed *)
+Definition newly_owed (r : rstate) (keys : list key) : list (key * Z) :=
+  map (fun k => (k, trem (first_task [] 0))) (filter (down r) keys).
+
+Definition owed_after (r : rstate) (o : op) (ob : opobs) : list (key * Z) :=
+  match o, o_ret ob with
+  | OExec _ _ keys, ROk => r_owed r ++ newly_owed r keys
+  | ODel keys, _ => r_owed r ++ newly_owed r keys
+  | OClean n, _ => map (fun kz : key * Z => (fst kz, Z.max 0 (snd kz - Z.of_N n))) (r_owed r)
+  | _, _ => r_owed r
+  end.
 
 Definition next (r : rstate) (o : op) (ob : opobs) : rstate :=
   let disc := r_disc r && disciplined (r_db r) o in
   let ms := fst (step c (r_ms r) o) in
+  let ow := owed_after r o ob in
   match o, o_ret ob with
-  | OExec p (Some w) _, ROk => mkR (db_put p w (r_db r)) (r_dbf r) (r_cf r) (o_dump ob) disc ms
-  | OExec p None _, ROk => mkR (db_del p (r_db r)) (r_dbf r) (r_cf r) (o_dump ob) disc ms
-  | ODbFault b, _ => mkR (r_db r) b (r_cf r) (o_dump ob) disc ms
+  | OExec p (Some w) _, ROk => mkR (db_put p w (r_db r)) (r_dbf r) (r_cf r) (o_dump ob) disc ow ms
+  | OExec p None _, ROk => mkR (db_del p (r_db r)) (r_dbf r) (r_cf r) (o_dump ob) disc ow ms
+  | ODbFault b, _ => mkR (r_db r) b (r_cf r) (o_dump ob) disc ow ms
   | OCFault n b, _ =>
     mkR (r_db r) (r_dbf r) (if b then n :: r_cf r else filter (fun m => negb (m =? n)) (r_cf r))
-        (o_dump ob) disc ms
+        (o_dump ob) disc ow ms
   | OTakeMid _ _ n, _ | OQriMid _ _ n, _ =>
     (* the outage is injected by the query callback: only if a query ran *)
-    mkR (r_db r) (r_dbf r) (if 0 <? o_qi ob + o_qp ob then n :: r_cf r else r_cf r) (o_dump ob) disc ms
-  | _, _ => mkR (r_db r) (r_dbf r) (r_cf r) (o_dump ob) disc ms
+    mkR (r_db r) (r_dbf r) (if 0 <? o_qi ob + o_qp ob then n :: r_cf r else r_cf r) (o_dump ob) disc ow ms
+  | _, _ => mkR (r_db r) (r_dbf r) (r_cf r) (o_dump ob) disc ow ms
   end.
 
 Fixpoint check_from (r : rstate) (ops : list op) (obs : list opobs) : bool :=
@@ -326,7 +411,7 @@ End Checks.
 
 Definition prop_gen (f7 f11 : bool) (c : case) : bool :=
   check_from (c_cfg c) f7 f11
-             (mkR (c_rows c) false [] [] true (init (c_rows c))) (c_ops c) (c_obs c).
+             (mkR (c_rows c) false [] [] true [] (init (c_rows c))) (c_ops c) (c_obs c).
 
 Definition prop_ok (c : case) : bool := prop_gen false false c.
 
@@ -336,16 +421,17 @@ Definition classify (c : case) : bool * bool * bool :=
   (prop_gen true false c, prop_gen false true c, prop_gen true true c).
 
 (* diagnostics for replay files: index of the first operation whose check fails and which
-   of (A coherent, B served, C db_errors, D fail_fast, E ttls, F invalidated) hold there *)
+   of (A coherent, B served, C db_errors, D fail_fast, E ttls, F invalidated, G kept, H retried) hold there *)
 Fixpoint first_fail (c : config) (r : rstate) (ops : list op) (obs : list opobs) (i : Z)
   : option (Z * list bool) :=
   match ops, obs with
   | o :: ops', ob :: obs' =>
     if check_op c false false r o ob then first_fail c (next c r o ob) ops' obs' (i + 1)
     else Some (i, [coherent false r (norm o) ob; served c r (norm o) ob; db_errors r (norm o) ob;
-                   fail_fast_mid c r o ob; ttls c false r o ob; invalidated c r o ob])
+                   fail_fast_mid c r o ob; ttls c false r o ob; invalidated c r o ob;
+                   kept r o ob; retried c r o ob])
   | _, _ => None
   end.
 
 Definition diagnose (c : case) : option (Z * list bool) :=
-  first_fail (c_cfg c) (mkR (c_rows c) false [] [] true (init (c_rows c))) (c_ops c) (c_obs c) 0.
+  first_fail (c_cfg c) (mkR (c_rows c) false [] [] true [] (init (c_rows c))) (c_ops c) (c_obs c) 0.
